@@ -618,9 +618,12 @@ def oracle(case, built, obs):
         return [('C12 / %s / bundle not decodable by the receiver' % label, obs['decode_error'])]
     if classes:
         # "no application receives the bundle and it is marked deleted with a security reason"
-        if obs['app_calls'] or obs['reached'] or 'deliver' in acts or delivered_reports:
-            bad.append((sig('delivered'), 'unverifiable security block (%s) but application steps invoked %r, payload %r, actions %r, reports %r'
+        if obs['app_calls'] or 'deliver' in acts or delivered_reports:
+            bad.append((sig('delivered'), 'unverifiable security block (%s) but delivered: application steps invoked %r, payload %r, actions %r, reports %r'
                         % (label, obs['reached'], [c['payload'] for c in obs['app_calls']], acts, obs['reports'])))
+        elif obs['reached']:
+            bad.append((sig('application-steps-invoked'), 'unverifiable security block (%s): deliver is not recorded but the application steps were invoked all the same: %r, actions %r'
+                        % (label, obs['reached'], acts)))
         elif 'delete' not in acts:
             bad.append((sig('neither'), 'unverifiable security block (%s): not delivered but not marked deleted either: actions %r, reason %r, reports %r'
                         % (label, acts, obs['reason'], obs['reports'])))
@@ -819,6 +822,18 @@ def case_shape(case):
 
 # ---------------------------------------------------------------------------------------------- main
 
+def eval_model(chk, name, terms, func, batch=25):
+    ''' vm_compute of ``func`` on every term; ``batch`` cases per Eval (the fixed cost of an Eval dominates). '''
+    groups = [terms[idx:idx + batch] for idx in range(0, len(terms), batch)]
+    res = chk.coq_eval(name, ['Model.BpSecChain'], ['[' + '; '.join(grp) + ']' for grp in groups], '(map %s)' % func)
+    out = []
+    for (grp, part) in zip(groups, res):
+        if len(part) != len(grp):
+            raise CoqError('expected %d results in a batch, got %d' % (len(grp), len(part)))
+        out.extend(part)
+    return out
+
+
 def report(chk, pending, sig, what, replay_obj):
     if sig in PENDING_FINDINGS and chk.known_match(sig) is None:
         if sig not in pending:
@@ -935,7 +950,7 @@ def main():
     disagree = []
     model_err = None
     try:
-        model = chk.coq_eval('corr', ['Model.BpSecChain'], terms, 'BpSecChain.run_case')
+        model = eval_model(chk, 'corr', terms, 'BpSecChain.run_case')
     except CoqError as err:
         model = None
         model_err = str(err)
@@ -951,8 +966,18 @@ def main():
                     with open(os.path.join(VERIF, 'build', 'C12_disagreement.json'), 'w') as out:
                         json.dump(dict(case=case, raw_hex=built['raw'].hex(), impl=want, model=got, observed=obs_summary(obs)), out,
                                   indent=1, default=repr)
+        live_note = ''
+        if disagree:
+            # diagnostic only: does the implementation behave like the original tree's iteration over the live list?
+            try:
+                idx = [k for (k, ((tag, case, built, obs, ids), res)) in enumerate(zip(runs, model)) if impl_canon(obs, ids) != listify(res)]
+                live = eval_model(chk, 'live', [terms[k] for k in idx[:200]], 'BpSecChain.run_case_live')
+                same = sum(1 for (k, res) in zip(idx, live) if impl_canon(runs[k][3], runs[k][4]) == listify(res))
+                live_note = '; %d of the first %d disagreeing cases agree with recv_sec_live (iteration over the live block list)' % (same, len(live))
+            except CoqError:
+                pass
         chk.obligation('correspondence:recv_bundle-vs-BpSecChain.recv_sec', not disagree,
-                       '%d of %d cases disagree; first: %r' % (len(disagree), len(runs), [(t, w, g) for (t, _c, w, g) in disagree[:1]]))
+                       '%d of %d cases disagree; first: %r%s' % (len(disagree), len(runs), [(t, w, g) for (t, _c, w, g) in disagree[:1]], live_note))
     else:
         chk.obligation('correspondence:recv_bundle-vs-BpSecChain.recv_sec', False, 'model evaluation failed: ' + model_err)
 
